@@ -17,6 +17,7 @@ type Sched struct {
 	e          *Env
 	Execute    *ssa.Function // (*Node).Execute
 	IsReady    *ssa.Function
+	IsSucceed  *ssa.Function // by role: the predicate of Status() that walks the nodes (set by c04StatusTable)
 	Launch     *ssa.Go       // the unique `go` whose closure reaches Execute
 	Loop       *ssa.Function // the scheduling loop: the function the launch belongs to in the virtual inlining view
 	LaunchFn   *ssa.Function // the function that textually holds the go statement (Loop itself, or a single-call-site helper of it)
